@@ -283,7 +283,9 @@ impl<T: Eq + Hash> FrequentItemsSketch<T> {
     where
         T: Clone,
     {
-        if other.is_empty() {
+        // A sketch whose last purge removed every counter has no active items but still
+        // carries stream weight and offset, which must not be lost.
+        if other.stream_weight == 0 {
             return;
         }
         let merged_total = self.stream_weight + other.stream_weight;
@@ -413,7 +415,9 @@ impl<T: Eq + Hash> FrequentItemsSketch<T> {
     where
         T: Clone, // for self.hash_map.active_keys()
     {
-        if self.is_empty() {
+        // Only a sketch that has never seen any weight uses the empty form; one emptied by a
+        // purge still has to carry its stream weight and offset.
+        if self.is_empty() && self.stream_weight == 0 {
             let mut bytes = SketchBytes::with_capacity(8);
             bytes.write_u8(PREAMBLE_LONGS_EMPTY);
             bytes.write_u8(SERIAL_VERSION);
